@@ -50,10 +50,13 @@ def key_problems(v, path="$"):
             yield from key_problems(x, f"{path}[{i}]")
     elif isinstance(v, dict) and "o" in v:
         ks = [k for k, _ in v["o"]]
+        seen = set()
+        for k in ks:
+            if k in seen:
+                yield f"duplicate key {k!a} at {path}"
+            seen.add(k)
         for a, b in zip(ks, ks[1:]):
-            if a == b:
-                yield f"duplicate key {a!a} at {path}"
-            elif a > b:
+            if a > b:
                 yield f"keys out of order {a!a} > {b!a} at {path}"
         for k, x in v["o"]:
             yield from key_problems(x, f"{path}.{k}")
